@@ -30,13 +30,22 @@ DESC = {
     "C06_mA": ("C06", "non_comm_function_encoding leaves the deepest stack cell unconstrained after a binary operation", "binary non-commutative operation executed while the encoded stack is full"),
     "C07_mB": ("C07", "update_current_index uses min instead of max for the upper position bound of operand-less instructions", "an operand-less instruction with two dependants at different heights"),
     "C15_mA": ("C15", "build_asm_bytecode recognises PUSH0 for any name starting with PUSH", "PUSH0 enabled and a pseudo-push with operand exactly 0"),
+    "C01_r2a": ("C01/C03", "apply_cond_transformation: the guard of AND(SHL(X,Y),SHL(X,Z)) => SHL(X,AND(Y,Z)) tests the same SHL twice for other consumers", "two SHL by one amount ANDed, one SHL result read by one more instruction, neither on the final stack"),
+    "C01_r2b": ("C01/C03", "check_inputs: a commutative instruction matches an existing one if both operands merely occur in it (MUL(X,X) ~ MUL(X,Y))", "two instructions of one commutative opcode, the square defined first"),
+    "C01_r2c": ("C01/C03", "rule MUL(SHL(Y,1),X) => SHL(Y,X) keeps the MUL's commutative mark in one branch; greedy and the checker then accept swapped operands", "(1<<Y)*X with the SHL result as first MUL operand and greedy preferring the swapped order"),
+    "C02_r2a": ("C02", "are_dependent: a store at exactly offset+length-1 after a constant KECCAK256 is no longer ordered after it", "constant hash range followed by MSTORE/MSTORE8 at its last byte"),
+    "C02_r2b": ("C02", "remove_store_recursive_dif: an intervening MSTORE8 no longer blocks removal of a repeated MSTORE(x,y)", "MSTORE a v; MSTORE8 inside the word; MSTORE a v"),
+    "C05_r2a": ("C05", "compare_dependences: reduced lists of different length are accepted when the closures have the same size", "a reordering of four memory operations with 3 vs 4 reduced pairs and 5-pair closures"),
+    "C04_r2a": ("C04", "greedy compute_one_with_stack prints DUPn from a stale position: DUP17/DUP18 with error == 0", "a value at depth >= 16 fetched twice in a row as its last two uses with the SWAP route blocked (DUP16 DUP1 ADD SWAP16 POP)"),
+    "C16_r2a": ("C16", "compute_vars counts operand positions instead of instructions reading an initial variable: max_sk_sz one too small", "an initial element that is both operands of one instruction and stays in the final stack, tight estimate (DUP1 DUP1 MUL SWAP1)"),
+    "C14_r2a": ("C14", "rebuild_optimized_asm_block re-emits the shared split instruction only if the replacement does not already end with one that prints like it", "replacement ending in the split opcode, or an empty replacement between two equal split instructions"),
     "C16_mB": ("C16", "update_with_tree_level applies the two-positions-earlier rule to commutative instructions too: min_length one too large", "second operand of a commutative operation is the deepest dependency chain"),
 }
 
 
 def main():
     results = {}
-    for f in sorted(glob.glob("/tmp/mutant_eval_*.log")):
+    for f in sorted(glob.glob(os.path.join(HERE, "seeded", "_eval", "mutant_eval_*.log"))):
         for line in open(f):
             try:
                 d = json.loads(line)
